@@ -122,11 +122,19 @@ def reset_trace():
 
 
 def real(case):
-    functions = env.mods()[0]
+    functions, _, tools, _, _ = env.mods()
     env.Clock.now = env.NOW0
+    scripts = list(case['scripts'])
+    # the entry point takes bytes or Script objects, in any mix
+    how = case.get('as_objects', 0)
+    if how:
+        scripts = [tools.Script('src', b) if (how >> k) & 1 else b
+                   for k, b in enumerate(scripts)]
+        if how & 16:
+            scripts = tuple(scripts)
     try:
         r = functions.run_auth_scripts(
-            list(case['scripts']), dict(case['cache']), {}, {},
+            scripts, dict(case['cache']), {}, {},
             case['max_items'], case['max_item_size'], case['limit'])
         return r, None
     except BaseException as e:
@@ -280,6 +288,7 @@ def gen_case(rng):
     big = tag.startswith('builder')
     case = {
         'scripts': scripts, 'cache': cache, 'tag': tag,
+        'as_objects': rng.getrandbits(5) if rng.random() < 0.25 else 0,
         'max_items': 1024 if big and rng.random() < 0.8
         else rng.choice(LIMITS['max_items']),
         'max_item_size': 1024 if big and rng.random() < 0.8
